@@ -1,8 +1,14 @@
 ------------------------------ MODULE Dispatch ------------------------------
 (***************************************************************************)
-(* C06 - one call of a generated endpoint method, from the moment the      *)
-(* server's status line is known to what the caller sees:                  *)
+(* C06 - one generated endpoint method and one call of it, from the choice *)
+(* of the operation's primary response (generation time) to what the       *)
+(* caller sees:                                                            *)
 (*                                                                         *)
+(*   stage "select"     _get_primary_response, one action per rule:        *)
+(*                      PrimarySuccess (200, 201, 202, 204, other 2xx),    *)
+(*                      PrimaryDefault, PrimaryFirstListed (the fallback:  *)
+(*                      an operation without success and default response  *)
+(*                      gets its FIRST LISTED error response as primary);  *)
 (*   stage "transport"  HttpTransport.request: the bundled HttpxTransport  *)
 (*                      raises for every status outside 200..299           *)
 (*                      (TransportRaise); a custom transport is free to    *)
@@ -12,7 +18,7 @@
 (*                      and not judged here);                              *)
 (*   stage "match"      the generated `match response.status_code:` - one  *)
 (*                      action per kind of case the generator emits        *)
-(*                      (CaseDeclared, CaseRange, CaseDefault,             *)
+(*                      (CasePrimary, CaseDeclared, CaseRange, CaseDefault,*)
 (*                      CaseCatchAll);                                     *)
 (*   stage "done"       the outcome is what the caller observes; Judge     *)
 (*                      evaluates the property's clauses INTO A VERDICT    *)
@@ -28,24 +34,42 @@ EXTENDS DispatchCore, TLC, Json, SequencesExt
 
 CONSTANTS Members,     \* the universe of declaration members
           MaxDecl,     \* declarations have 1..MaxDecl members
+          AllOrders,   \* TRUE: every member may be the first listed one; FALSE: only where no success response is declared
           Statuses,    \* statuses the server may answer with
+          BodyKinds,   \* bodies the server may answer with (SUBSET Bodies)
+          BodyStatuses,\* the statuses that are answered with every body kind (the others: "object" only)
           Transports,  \* SUBSET {"bundled", "pass"}
           Variant,     \* "as_is" | "fixed"
           Emit         \* TRUE: Judge prints a DESIGN line for every failing call
 
-VARIABLES decl, transport, status, stage, outcome
-vars == <<decl, transport, status, stage, outcome>>
+VARIABLES decl, first, transport, status, body, primary, stage, outcome
+vars  == <<decl, first, transport, status, body, primary, stage, outcome>>
+scen  == <<decl, first, transport, status, body>>
 
-ASSUME Variant \in Variants /\ Transports \subseteq {"bundled", "pass"} /\ Statuses \subseteq 100..599
+ASSUME Variant \in Variants /\ Transports \subseteq {"bundled", "pass"} /\ Statuses \subseteq 100..599 /\ BodyKinds \subseteq Bodies
+
+NoPrimary == [k |-> "none", code |-> 0, content |-> FALSE]
 
 Init ==
-  /\ decl \in DeclSets(Members, MaxDecl)
+  /\ \E sc \in Scenarios(Members, MaxDecl, AllOrders) : decl = sc.d /\ first = sc.first
   /\ transport \in Transports
   /\ status \in Statuses
-  /\ stage = "transport"
+  /\ body \in BodyKinds
+  /\ (body # "object" => status \in BodyStatuses)
+  /\ primary = NoPrimary
+  /\ stage = "select"
   /\ outcome = NoOutcome
 
-Finish(o) == outcome' = o /\ stage' = "done" /\ UNCHANGED <<decl, transport, status>>
+Select(p) == primary' = p /\ stage' = "transport" /\ UNCHANGED <<scen, outcome>>
+
+\* "Prioritize 200, 201, 202, 204" / "Then other 2xx"
+PrimarySuccess     == stage = "select" /\ HasSuccess(decl) /\ Select(SuccessPrimary(decl))
+\* "Then default"
+PrimaryDefault     == stage = "select" /\ ~HasSuccess(decl) /\ HasDefault(decl) /\ Select(DefaultPrimary(decl))
+\* "Finally, the first listed response if any"
+PrimaryFirstListed == stage = "select" /\ ~HasSuccess(decl) /\ ~HasDefault(decl) /\ Select(first)
+
+Finish(o) == outcome' = o /\ stage' = "done" /\ UNCHANGED <<scen, primary>>
 
 \* `from <core> import Error302`: the client package cannot be imported, no call is ever made
 LoadFails ==
@@ -62,32 +86,39 @@ TransportRaise ==
 TransportPass ==
   /\ stage = "transport" /\ Importable(Variant, decl)
   /\ (IF transport = "pass" THEN TRUE ELSE status \in 200..299)
-  /\ stage' = "match" /\ UNCHANGED <<decl, transport, status, outcome>>
+  /\ stage' = "match" /\ UNCHANGED <<scen, primary, outcome>>
 
-\* `case <code>:` - `return ...` for a 2xx key, `raise <Alias>(response=response)` for any other
+\* the first `case`: the primary response, only when its key is a numeric 2xx; returns the strategy's type
+CasePrimary ==
+  /\ stage = "match" /\ PrimaryCase(primary) /\ status = primary.code
+  /\ Finish(PrimaryOutcome(primary, body))
+
+\* `case <code>:` of every other numeric key (a fallback primary included) - `return ...` for a 2xx key,
+\* `raise <Alias>(response=response)` for any other
 CaseDeclared(c) ==
   /\ stage = "match" /\ c \in Codes(decl) /\ c = status
-  /\ Finish(DeclaredOutcome(Variant, status))
+  /\ ~(PrimaryCase(primary) /\ status = primary.code)
+  /\ Finish(DeclaredOutcome(Variant, decl, status, body))
 
 \* `case` for a range key "4XX": the generator emits none (as_is); variant "fixed" dispatches it
 CaseRange(r) ==
   /\ stage = "match" /\ r \in Ranges(decl) /\ status \div 100 = r
   /\ RangeHit(Variant, decl, status)
-  /\ Finish(RangeOutcome(status))
+  /\ Finish(RangeOutcome(status, body))
 
-\* `case _:  # Default response`
+NoCase == ~DeclaredHit(decl, status) /\ ~RangeHit(Variant, decl, status)
+
+\* `case _:  # Default response` - returns the body parsed as the PRIMARY response's type when it can
 CaseDefault ==
-  /\ stage = "match" /\ ~DeclaredHit(decl, status) /\ ~RangeHit(Variant, decl, status)
-  /\ HasDefault(decl)
-  /\ Finish(DefaultOutcome(Variant, decl, status))
+  /\ stage = "match" /\ NoCase /\ HasDefault(decl)
+  /\ Finish(IF Variant = "as_is"
+              THEN IF DefaultContent(decl) /\ primary.content THEN Parsed(body) ELSE Raise(Base, status, TRUE)
+              ELSE DefaultOutcome(Variant, decl, first, status, body))
 
 \* `case _:` - final catch-all, emitted iff no default response is declared
 CaseCatchAll ==
-  /\ stage = "match" /\ ~DeclaredHit(decl, status) /\ ~RangeHit(Variant, decl, status)
-  /\ ~HasDefault(decl)
+  /\ stage = "match" /\ NoCase /\ ~HasDefault(decl)
   /\ Finish(CatchAllOutcome(Variant, status))
-
-DeclSeq == SetToSeq(decl)
 
 \* constant quantifier bounds: TLC keeps CaseDeclared / CaseRange as named sub-actions (coverage)
 MemberCodes  == Codes(Members)
@@ -95,14 +126,16 @@ MemberRanges == Ranges(Members)
 
 Judge ==
   /\ stage = "done"
-  /\ stage' = "judged" /\ UNCHANGED <<decl, transport, status, outcome>>
-  /\ LET fs == Failures(decl, transport, status, outcome)
+  /\ stage' = "judged" /\ UNCHANGED <<scen, primary, outcome>>
+  /\ LET fs == Failures(decl, transport, status, body, outcome)
      IN  (Emit /\ fs # {}) =>
-            PrintT("DESIGN " \o ToJson([decl |-> DeclSeq, transport |-> transport, status |-> status,
-                                        kind |-> outcome.kind, fails |-> SetToSeq(fs)]))
+            PrintT("DESIGN " \o ToJson([decl |-> SetToSeq(decl), first |-> first, transport |-> transport, status |-> status,
+                                        body |-> body, kind |-> outcome.kind, fails |-> SetToSeq(fs)]))
 
 Next ==
+  \/ PrimarySuccess \/ PrimaryDefault \/ PrimaryFirstListed
   \/ LoadFails \/ TransportRaise \/ TransportPass
+  \/ CasePrimary
   \/ \E c \in MemberCodes : CaseDeclared(c)
   \/ \E r \in MemberRanges : CaseRange(r)
   \/ CaseDefault \/ CaseCatchAll
@@ -116,32 +149,42 @@ Spec == Init /\ [][Next]_vars
 Finished == stage \in {"done", "judged"}
 
 TypeOK ==
-  /\ stage \in {"transport", "match", "done", "judged"}
-  /\ transport \in Transports /\ status \in Statuses /\ WellFormed(decl)
+  /\ stage \in {"select", "transport", "match", "done", "judged"}
+  /\ transport \in Transports /\ status \in Statuses /\ body \in BodyKinds /\ WellFormed(decl) /\ first \in decl
   /\ outcome.kind \in {"none", "return", "raise", "unimportable"}
   /\ outcome.mro \subseteq Names
   /\ (Finished <=> outcome.kind # "none")
+  /\ (stage = "select" <=> primary = NoPrimary)
+
+\* the three selection actions compose to DispatchCore!Primary
+PrimaryIsModel == stage # "select" => primary = Primary(decl, first)
+\* a primary response chosen by the "first listed" fallback is an error response: it must not get the returning case
+FallbackNeverReturns == (stage # "select" /\ ~HasSuccess(decl)) => ~PrimaryCase(primary)
 
 \* the machine's actions compose to the constant-level function the trace monitor compares the real code with
-MachineIsModel == Finished => outcome = ModelOutcome(Variant, decl, transport, status)
+MachineIsModel == Finished => outcome = ModelOutcome(Variant, decl, first, transport, status, body)
 
 \* the judge and the property as stated are the same predicate
 JudgeAgrees ==
   (Finished /\ outcome.kind # "unimportable") =>
-      (Holds(status, outcome) <=> Failures(decl, transport, status, outcome) = {})
+      (Holds(status, outcome) <=> Failures(decl, transport, status, body, outcome) = {})
 
 \* the property, clause by clause (names as in DESIGN.md appendix F)
 Judged == Finished /\ outcome.kind # "unimportable" /\ status \notin 200..299
 NonSuccessRaises         == Judged => outcome.kind = "raise"
 RaisedIsHTTPError        == (Judged /\ outcome.kind = "raise") => IsHTTPError(outcome)
-CarriesStatusAndResponse == (Judged /\ outcome.kind = "raise") => (outcome.status = status /\ outcome.hasResponse)
-ClassByRange             == (Judged /\ outcome.kind = "raise") =>
+CarriesStatusAndResponse == (Judged /\ outcome.kind = "raise" /\ IsHTTPError(outcome)) => (outcome.status = status /\ outcome.hasResponse)
+ClassByRange             == (Judged /\ outcome.kind = "raise" /\ IsHTTPError(outcome)) =>
                                /\ (status \in 400..499 => IsClientError(outcome))
                                /\ (status \in 500..599 => IsServerError(outcome))
 Property == (Finished /\ outcome.kind # "unimportable") => Holds(status, outcome)
 
+\* a declared non-2xx status that reaches the match statement raises its alias whatever the body and the listing order
+DeclaredErrorRaisesAlias ==
+  (Finished /\ outcome.kind # "unimportable" /\ transport = "pass" /\ status \notin 200..299 /\ status \in Codes(decl)) =>
+      outcome = Raise(ByRange(status), status, TRUE)
 \* only a response the transport handed back reaches the match statement
 MatchOnlyIfPassed == stage = "match" => (transport = "pass" \/ status \in 200..299)
-\* a success status the document declares is never turned into an error
-DeclaredSuccessReturns == (Finished /\ outcome.kind # "unimportable" /\ status \in 200..299 /\ status \in Codes(decl)) => outcome.kind = "return"
+\* a success status the document declares is never turned into an HTTP error
+DeclaredSuccessNoHTTPError == (Finished /\ outcome.kind # "unimportable" /\ status \in 200..299 /\ status \in Codes(decl)) => ~IsHTTPError(outcome)
 =============================================================================
